@@ -366,6 +366,8 @@ def cases_b(tier):
     add('kanji:count2:8', 'kanji', 8, symbol_count=2, mask=2)
     add('text-latin1/sjis:count2:5', 'text', 5, symbol_count=2, mask=1)
     add('text-latin1/sjis:v1:25', 'text', 25, version=1, error='L', mask=3)
+    add('text-utf8-only:v1:12', 'text8', 12, version=1, error='L', mask=2)
+    add('text-utf8-only:count3:12', 'text8', 12, symbol_count=3, mask=2)
     add('bytes:single:5', 'bytes', 5, version=2, mask=1)
     add('bytes:count1:5', 'bytes', 5, symbol_count=1, mask=1)
     if tier == 'thorough':
@@ -389,6 +391,17 @@ def build_b(case):
             chars.append({'iso8859-1': [a], 'shift_jis': [b1, b2], 'utf-8': [b1, b2, a]})
             allb += [a]
             assume.append(z3.UGE(a.word(8), 0xa1))      # non-ASCII Latin-1 character -> byte mode
+        return SeqText(chars), SBytes(allb), assume, chars
+    if kind == 'text8':
+        # characters that only UTF-8 can encode (three bytes each): the byte count differs from the character count
+        chars = []
+        allb = []
+        for i in range(n):
+            bs = [SInt.fresh_word(f'u{i}{k}', 8) for k in 'abc']
+            chars.append({'iso8859-1': None, 'shift_jis': None, 'utf-8': bs})
+            allb += bs
+            assume += [z3.UGE(bs[0].word(8), 0xe2), z3.ULE(bs[0].word(8), 0xef), z3.UGE(bs[1].word(8), 0x80), z3.ULE(bs[1].word(8), 0xbf),
+                       z3.UGE(bs[2].word(8), 0x80), z3.ULE(bs[2].word(8), 0xbf)]
         return SeqText(chars), SBytes(allb), assume, chars
     sb = SBytes.fresh('c', n)
     for i, b in enumerate(sb.d):
@@ -419,13 +432,32 @@ def build_b(case):
 def job_b(res, L_, case):
     kw = dict(case['kw'])
     content, want, assume, chars = build_b(case)
-    ex, paths = common.explore(lambda: list(L_.segno.make_sequence(content, **kw)), max_paths=64, assume=assume)
+    enc, consts = L_.encoder, L_.consts
+    real__encode = enc._encode
+    over = []
+
+    def rec(segments, error, version, mask, eci, boost_error, sa_info=None):
+        lvname = {v: k for k, v in consts.ERROR_MAPPING.items()}[error]
+        need = S.needed_bits([(D.MODE_OF_CONST[sg.mode], sg.encoding) for sg in segments], version, sum(len(sg.bits) for sg in segments), eci, sa_info is not None)
+        if need > T.data_bits(version, lvname):
+            over.append((version, lvname, need))
+        return real__encode(segments, error, version, mask, eci, boost_error, sa_info)
+
+    def run():
+        del over[:]
+        qs = list(L_.segno.make_sequence(content, **kw))
+        return qs, list(over)
+    enc._encode = rec
+    try:
+        ex, paths = common.explore(run, max_paths=64, assume=assume)
+    finally:
+        enc._encode = real__encode
     res.paths = len(paths)
 
     def to_input(m):
         d = {'fn': 'b', 'kind': case['kind'], 'kw': kw, 'data': list(common.bytes_from_model(m, want))}
         if chars is not None:
-            d['chars'] = [{k: [m.eval(x.word(8), model_completion=True).as_long() for x in v] for k, v in c.items()} for c in chars]
+            d['chars'] = [{k: (None if v is None else [m.eval(x.word(8), model_completion=True).as_long() for x in v]) for k, v in c.items()} for c in chars]
         return d
     if not any(p.status == 'ok' for p in paths):
         res.inconclusive.append(f'case refused on every path: {paths[0].value if paths else None}')
@@ -439,7 +471,14 @@ def job_b(res, L_, case):
                 res.violation('unexpected-exception', f'{type(p.value).__name__}: {p.value}', to_input(m) if m is not None else {'fn': 'none'})
             continue
         common.check_side(res, p, to_input)
-        qrs = p.value
+        qrs, overflow = p.value
+        if overflow and kw.get('version') is not None and kw.get('symbol_count') is None:
+            # the recorded deviation (version given: the symbol-count estimate lets a chunk exceed the capacity); the symbols are cut
+            res.obligations += 1
+            r_, m_ = check(p.pc)
+            res.violation(KNOWN_TRUNC, f'chunk of {overflow[0][2]} bits for {overflow[0][0]}-{overflow[0][1]}', to_input(m_) if m_ is not None else {'fn': 'none'})
+            continue
+        res.concrete('every-chunk-fits-its-symbol', not overflow, lambda: _viol(res, p, to_input, 'chunk-overflow', f'chunk exceeds the capacity: {overflow[:2]}'))
         k = len(qrs)
         res.concrete('1..16-symbols', 1 <= k <= 16, lambda: _viol(res, p, to_input, 'symbol-count', f'{k} symbols'))
         if kw.get('symbol_count'):
@@ -573,12 +612,26 @@ def replay(viol):
     kw = inp['kw']
     data = bytes(inp['data'])
     content = FakeSeqText(inp['chars']) if inp.get('chars') else data
+    over = []
+    real_e = enc._encode
+
+    def rec2(segments, error, version, mask, eci, boost_error, sa_info=None):
+        lvname = {v: k for k, v in consts.ERROR_MAPPING.items()}[error]
+        need = S.needed_bits([(D.MODE_OF_CONST[sg.mode], sg.encoding) for sg in segments], version, sum(len(sg.bits) for sg in segments), eci, sa_info is not None)
+        if need > T.data_bits(version, lvname):
+            over.append(f'{need} bits for {version}-{lvname}')
+        return real_e(segments, error, version, mask, eci, boost_error, sa_info)
+    enc._encode = rec2
     try:
         qrs = list(segno.make_sequence(content, **kw))
     except ValueError as e:
         return False, f'refused: {e}'
     except Exception as e:
         return True, f'make_sequence raised {type(e).__name__}: {e}'
+    finally:
+        enc._encode = real_e
+    if viol.get('key') == KNOWN_TRUNC:
+        return bool(over) and kw.get('version') is not None and kw.get('symbol_count') is None, f'make_sequence(.., {kw}): {over[:2]}'
     bad = []
     k = len(qrs)
     par = 0
